@@ -13,9 +13,9 @@ LEVEL = "exploration"
 RULE = ("Hypothesis draws a rectangular table over a small pool of hashable cells (None, mixed types, equal values of "
         "different numeric types; header-only and single-row tables included), a key (None / single by name or index / "
         "compound / 1-tuple), optional count field and buffersize. Oracle: key multiplicities from a Counter: duplicates = "
-        "rows with multiplicity > 1 and unique = rows with multiplicity 1, each as an exact sequence (key order, input order "
-        "inside a key) and together a partition of the input; distinct = the first row (input order) of every key in key "
-        "order, count column = multiplicity, counts sum to nrows; isunique <=> duplicates is empty; conflicts: every row "
+        "rows with multiplicity > 1 and unique = rows with multiplicity 1 (compared as multisets: the statement is about "
+        "membership, not output order) and together a partition of the input; distinct = the first row (in sorted order, i.e. "
+        "input order among equal keys) of every key, count column = multiplicity, counts sum to nrows; isunique <=> duplicates is empty; conflicts: every row "
         "returned is an input row of a key group of size >= 2 containing two rows that differ on a considered field where "
         "neither value is `missing` (soundness), returned rows keep multiplicity, and a group without any missing value "
         "that disagrees contributes >= 2 rows. Non-trivial = some key occurs more than once and some key exactly once. "
@@ -74,11 +74,11 @@ def check(case, ctx):
     try:
         if op == "duplicates":
             got = [tuple(r) for r in etl.duplicates(T, key, **kw)]
-            if got[:1] != [hdr] or got[1:] != dup_exp:
+            if got[:1] != [hdr] or Counter(got[1:]) != Counter(dup_exp):
                 return Fail("duplicates/rows", "duplicates(%r, %r) gave %r expected %r" % (tbl, key, got, dup_exp))
         elif op == "unique":
             got = [tuple(r) for r in etl.unique(T, key, **kw)]
-            if got[:1] != [hdr] or got[1:] != uniq_exp:
+            if got[:1] != [hdr] or Counter(got[1:]) != Counter(uniq_exp):
                 return Fail("unique/rows", "unique(%r, %r) gave %r expected %r" % (tbl, key, got, uniq_exp))
         elif op == "partition":
             d = [tuple(r) for r in etl.duplicates(T, key, **kw)][1:]
@@ -101,7 +101,7 @@ def check(case, ctx):
                 exp = [hdr + ("n",)] + [first[k] + (mult[k],) for k in order]
                 if sum(r[-1] for r in got[1:]) != len(rows):
                     return Fail("distinct/count-sum", "counts %r do not add up to %d rows" % ([r[-1] for r in got[1:]], len(rows)))
-            if got != exp:
+            if got[:1] != exp[:1] or Counter(got[1:]) != Counter(exp[1:]):
                 return Fail(op + "/rows", "%s(%r, %r) gave %r expected %r" % (op, tbl, key, got, exp))
         elif op == "isunique":
             got = etl.isunique(T, key)
@@ -148,9 +148,6 @@ def check(case, ctx):
                     n = sum(outc[r] for r in set(g))
                     if n < 2:
                         return Fail("conflicts/missed-group", "group %r disagrees without missing values but %d rows returned" % (g, n))
-            keys_out = [R.keytuple(r, idx) for r in out]
-            if not R.is_sorted_seq(keys_out):
-                return Fail("conflicts/order", "keys %r not ascending" % (keys_out,))
     except Exception as ex:
         return exc_fail(op, ex)
     return None
